@@ -34,6 +34,8 @@ FoldVerdict(exitcode, crashed, out, relayed) ==
   ELSE IF relayed = LK /\ MsgReport(out) # LK THEN "NoSuccessReportRelayedAsSuccess"      \* empty, unterminated, Z, D, garbage
   ELSE IF relayed = LK /\ out[1] \in {Lh, Ls} THEN "RecipientRefusalRelayedAsSuccess"
   ELSE IF ~crashed /\ exitcode = 0 /\ Len(out) > 0 /\ out[1] = Lr /\ MsgReport(out) = LK /\ relayed # LK THEN "PlainSuccessNotRelayed"
+  \* (a temporary failure reported by qmail-remote - a 4xx reply, a lost connection - stays temporary, however long its text)
+  ELSE IF ~crashed /\ exitcode = 0 /\ Len(out) > 0 /\ out[1] \in {Lr, LZ} /\ MsgReport(out) = LZ /\ relayed # LZ THEN "PlainTemporaryFailureNotRelayed"
   ELSE ""
 
 (***************************************************************************)
